@@ -554,6 +554,12 @@ class SArr:
     def __rmul__(self, o):
         return self._elemwise(o, lambda x, y: _UF("mul", x, y), rev=True)
 
+    def __truediv__(self, o):
+        return self._elemwise(o, lambda x, y: x / y)  # exact division (the divisor is taken to be non-zero)
+
+    def __rtruediv__(self, o):
+        return self._elemwise(o, lambda x, y: x / y, rev=True)
+
     def __neg__(self):
         src = self
         out = self._derive(self.shape, lambda idx: -src._at(idx))
